@@ -601,7 +601,7 @@ pub fn run(ctx: &Ctx) -> (Stats, Spec) {
     let parts = util::par_jobs(lens.len(), |j| long_list_job(ctx, lens[j], if lens[j] < 16 { 2 * reps } else { reps }));
     st.merge(crate::report::merge_all(parts));
     // counting in an environment whose table holds millions of entries
-    {
+    engine_block(&mut st, "C05", "huge-table", |st2| {
         let env = huge_env(ctx.tier.pick(2_200_000usize, 17_000_000usize));
         let mut rng = Rng::stream(ctx.seed, "C05.huge", 0);
         let uni = vec![1usize, 3, 5, 8];
@@ -609,14 +609,14 @@ pub fn run(ctx: &Ctx) -> (Stats, Spec) {
         for _ in 0..ctx.tier.pick(300, 5_000) {
             let ops: Vec<(D, Tt)> = (0..1 + rng.usize(4)).map(|_| { let t = random_table_subset(&mut rng, 4); (build_in_env(&env, &t, &vars), t) }).collect();
             let refs: Vec<&(D, Tt)> = ops.iter().collect();
-            check_const(&mut st, &env, &uni, &refs, rng.range(-1, ops.len() as i64 + 2), "huge-table");
+            check_const(st2, &env, &uni, &refs, rng.range(-1, ops.len() as i64 + 2), "huge-table");
             let (l, r) = refs.split_at(refs.len() / 2);
-            check_lists(&mut st, &env, &uni, l, r, "huge-table");
-            st.bump("counts_in_a_huge_table");
+            check_lists(st2, &env, &uni, l, r, "huge-table");
+            st2.bump("counts_in_a_huge_table");
         }
-    }
+    });
     let deep: Vec<usize> = ctx.tier.pick(vec![18, 20, 22, 23], vec![18, 19, 20, 21, 22, 23, 24]);
-    let parts = util::par_jobs(deep.len(), |j| deep_list_job(ctx, deep[j]));
+    let parts = util::par_jobs(deep.len(), |j| { let mut s = Stats::new(); engine_block(&mut s, "C05", "deep-list", |s2| s2.merge(deep_list_job(ctx, deep[j]))); s });
     st.merge(crate::report::merge_all(parts));
     // the language: a long list of plain variables against boundary constants
     for n in ctx.tier.pick(vec![16usize, 17, 18], vec![12, 16, 17, 18, 19, 20]) {
